@@ -126,38 +126,64 @@ func ruleCursorUp(w *World, r *Report, pfx string) {
 	r.Check(bad == "" && n > 0 && sawEsc && sawSkip, rule, "cwriter.Writer.Flush", w.pos(fn.Pos()), "frame written first; escape queued into the own buffer with the given count, only for lines > 0", orStr(bad, "escape or skip path missing"))
 	// escape constants (E9c)
 	if esc != nil {
-		okSeq := false
-		for _, b := range esc.Blocks {
-			for _, in := range b.Instrs {
-				if cv, ok := in.(*ssa.Convert); ok {
-					if c, ok := cv.X.(*ssa.Const); ok && c.Value != nil && c.Value.Kind() == constant.String {
-						s := constant.StringVal(c.Value)
-						if s == "A\x1b[J" || s == "A\x1b[0J" {
-							okSeq = true
-						}
-					}
-				}
-			}
-		}
-		// one AppendInt of n base 10, one Write
+		// on every path (private helpers inlined): one AppendInt(prefix, n, 10) of the count parameter,
+		// the constant "A CSI J" appended, one Write
+		okSeq := true
 		nApp, nWr := 0, 0
-		for _, b := range esc.Blocks {
-			for _, in := range b.Instrs {
-				if c, ok := in.(*ssa.Call); ok {
-					if sc := c.Call.StaticCallee(); sc != nil && sc.String() == "strconv.AppendInt" {
-						nApp++
-						if k, ok := constInt(c.Call.Args[2]); !ok || k != 10 {
-							okSeq = false
-						}
-						if cv, ok := c.Call.Args[1].(*ssa.Convert); !ok || cv.X != ssa.Value(esc.Params[2]) {
-							okSeq = false
-						}
+		nPaths, _ := w.enumPaths(esc, pathOpts{InlineDepth: 2, Inline: w.helperInline(esc)}, func(p *Path) {
+			if p.Exit != "return" {
+				return
+			}
+			app, wr, seq := 0, 0, false
+			for _, ev := range p.Events {
+				for _, op := range ev.In.Operands(nil) {
+					v := *op
+					if v == nil {
+						continue
 					}
-					if c.Call.IsInvoke() && c.Call.Method.Name() == "Write" {
-						nWr++
+					if cv, ok := v.(*ssa.Convert); ok {
+						v = cv.X
+					}
+					if c, ok := v.(*ssa.Const); ok && c.Value != nil && c.Value.Kind() == constant.String {
+						if sv := constant.StringVal(c.Value); sv == "A\x1b[J" || sv == "A\x1b[0J" {
+							seq = true
+						}
 					}
 				}
+				if cv, ok := ev.In.(*ssa.Convert); ok {
+					if c, ok := cv.X.(*ssa.Const); ok && c.Value != nil && c.Value.Kind() == constant.String {
+						if sv := constant.StringVal(c.Value); sv == "A\x1b[J" || sv == "A\x1b[0J" {
+							seq = true
+						}
+					}
+				}
+				c, ok := ev.In.(*ssa.Call)
+				if !ok {
+					continue
+				}
+				if sc := c.Call.StaticCallee(); sc != nil && sc.String() == "strconv.AppendInt" {
+					app++
+					if k, ok := constInt(c.Call.Args[2]); !ok || k != 10 {
+						okSeq = false
+					}
+					if p.stripR(p.val(ev, c.Call.Args[1])).V != ssa.Value(esc.Params[2]) {
+						okSeq = false
+					}
+				}
+				if c.Call.IsInvoke() && c.Call.Method.Name() == "Write" {
+					wr++
+				}
 			}
+			if !seq {
+				okSeq = false
+			}
+			nApp, nWr = app, wr
+			if app != 1 || wr != 1 {
+				okSeq = false
+			}
+		})
+		if nPaths == 0 {
+			okSeq = false
 		}
 		r.Check(okSeq && nApp == 1 && nWr == 1, rule+"c", "cursor-up + erase sequence", w.pos(esc.Pos()), "CSI n A CSI J in one write", "the escape sequence is not CSI <n> A followed by CSI J (erase below)")
 	}
